@@ -555,7 +555,7 @@ def ladder(skel, tier, reduced=False):
     out += [["box", None, "ortho"], ["box", None, "tric"], ["box", None, "permodel"]]
     out += [["atom_id", None, "rev"], ["atom_id", None, "neg"]]
     out += [["b_factor", None, "vals"], ["b_factor", None, "nan"]]
-    out += [["occupancy", None, "vals"], ["charge", None, "vals"]]
+    out += [["occupancy", None, "vals"], ["charge", None, "vals"], ["charge", None, "big"]]
     out += [["extra", None, "plain"], ["extra", None, "awk"], ["extra", None, "awk2"], ["bonds", None, "path"]]
     return out
 
@@ -639,7 +639,8 @@ def apply_devs(skel, pal, devs):
         elif f == "occupancy":
             spec["opt"]["occupancy"] = [0.0, 1.0, 0.5, 0.25][:n]
         elif f == "charge":
-            spec["opt"]["charge"] = [-2, 0, 2, 1][:n]
+            # 'big': two- and three-digit charges (the written text is wider than the usual '+1')
+            spec["opt"]["charge"] = ([-2, 0, 2, 1] if v == "vals" else [10, -12, 100, -9])[:n]
         elif f == "extra":
             spec["extra"] = {"plain": ["x", "yy", "x", "z9"], "awk": ["a b", "'q", "", 'd"q'],
                              "awk2": ["5' end", 'd" q', "a'b c'd", 'e"f g"h']}[v][:n]
